@@ -1065,7 +1065,7 @@ func runC08(r *Run) {
 	}
 
 	// ---- generated histories
-	n := r.N(3000, 60000)
+	n := r.N(3000, 50000)
 	r.Cases(100, n, 0, func(c *Case, rng *Rng) {
 		// the hook: 55% one binding, otherwise two or three bindings on the same kind/namespace (one
 		// shared informer); 25% written in the legacy format (configVersion v0)
